@@ -157,10 +157,10 @@ func runC07(tier string) int {
 	col.Set("distinct_nontrivial", logs)
 	col.Set("exhaustive", exhaustive)
 	col.Set("per_policy", per)
-	col.Set("rule", "every command log up to the length bound from per-family pools (kv, hash, list, set, zset, bitmap, HyperLogLog, JSON, TTL) x 4 timestamp patterns (+1ns, +1s, +1s-1ns, second edges) x every chunking into apply batches x live/replaying x leader/follower (waiters registered or not) x wall-clock offset {0,+1e6 s,-1e6 s} (frozen virtual clock during apply) x engine {mem-skiplist, pebble}; compared with the canonical run (one entry per batch, live, leader, offset 0, mem-skiplist): replies per request, data read at two common virtual clocks, stored bytes within an engine. non-trivial = distinct logs")
+	col.Set("rule", "every command log up to the length bound from per-family pools (kv, hash, list, set, zset, bitmap, HyperLogLog, JSON, TTL) x 4 timestamp patterns (+1ns, +1s, +1s-1ns, second edges) x every chunking into apply batches x live/replaying x leader/follower (waiters registered or not) x wall-clock offset {0,+1e6 s,-1e6 s} (frozen virtual clock during apply) x engine {mem-skiplist, pebble}, plus a restart of the replica between any two entries (engine content kept, everything held in memory dropped; tail applied live and as a replay; not for the HyperLogLog family); compared with the canonical run (one entry per batch, live, leader, offset 0, mem-skiplist): replies per request, data read at two common virtual clocks, stored bytes within an engine. non-trivial = distinct logs")
 	for _, f := range storevc.Families() {
 		col.Sample(map[string]interface{}{"family": f.Name, "pool": f.Pool})
 	}
-	col.Assume = []string{"expiry scans of the local_deletion policy are not run here (the documented exception); they are C10's subject", "restart in the middle of a log (close + reopen) is exercised by C14 (restore + replay) and C06"}
+	col.Assume = []string{"expiry scans of the local_deletion policy are not run here (the documented exception); they are C10's subject", "the restart between two entries keeps the engine content through a dump/clean/load of the same store object; a restart through checkpoint + log replay of a real process is C14 and C06"}
 	return col.Finish()
 }
